@@ -77,6 +77,18 @@ func RunStress(seed int64, idx int, hostile bool) *Result {
 		}
 	}
 	for _, nd := range net.Nodes {
+		// a block factory that is sometimes slow, gives up when its context is cancelled and then returns no block
+		nd.BU.NilOnCancel = rng.Intn(2) == 0
+		nd.BU.OnRequest = func(ctx context.Context, h uint64) {
+			if net.rng.Intn(100) < 20 {
+				select {
+				case <-ctx.Done():
+				case <-time.After(time.Duration(net.rng.Intn(4000)) * time.Microsecond):
+				}
+			}
+		}
+	}
+	for _, nd := range net.Nodes {
 		// a committee contract that is sometimes slow and reports an error once its context is cancelled
 		nd.Mem.OnRequest = func(ctx context.Context, h uint64) error {
 			if net.rng.Intn(100) < 15 {
@@ -359,9 +371,16 @@ func (net *Net) hostileInput(victim *RNode, r *rand.Rand) {
 		victim.ML.HandleConsensusMessage(victim.ctx, nil)
 		net.count("C12 hostile inputs")
 		return
-	case 9: // the validation API with garbage
+	case 9: // the validation API with garbage, or with a genuine proof whose length fields are corrupted
 		b := make([]byte, r.Intn(120))
 		r.Read(b)
+		if c := net.Canon(net.MaxCanon()); c != nil && r.Intn(3) > 0 && len(c.Proof) > 8 {
+			b = append([]byte{}, c.Proof...)
+			for k := 0; k < 1+r.Intn(2); k++ {
+				i := r.Intn(len(b) - 3)
+				b[i], b[i+1], b[i+2], b[i+3] = byte(0xfc+r.Intn(4)), 0xff, 0xff, byte(0xff-r.Intn(2)*0x80)
+			}
+		}
 		func() {
 			defer func() {
 				if p := recover(); p != nil {
